@@ -74,9 +74,13 @@ func (u *custom) Unpack(v starlark.Value) error {
 }
 
 var (
-	sentValue    = starlark.String("<sentinel value>")
-	sentList     = starlark.NewList([]starlark.Value{starlark.String("<sentinel list>")})
-	sentDict     = func() *starlark.Dict { d := starlark.NewDict(1); d.SetKey(starlark.String("<sentinel dict>"), starlark.None); return d }()
+	sentValue = starlark.String("<sentinel value>")
+	sentList  = starlark.NewList([]starlark.Value{starlark.String("<sentinel list>")})
+	sentDict  = func() *starlark.Dict {
+		d := starlark.NewDict(1)
+		d.SetKey(starlark.String("<sentinel dict>"), starlark.None)
+		return d
+	}()
 	sentCallable = starlark.NewBuiltin("sentinel_callable", func(*starlark.Thread, *starlark.Builtin, starlark.Tuple, []starlark.Tuple) (starlark.Value, error) {
 		return starlark.None, nil
 	})
@@ -315,11 +319,11 @@ func genArg(r *rand.Rand, k tkind, class string, tag int, boolSentinel bool) arg
 
 func drawClass(r *rand.Rand) string {
 	switch x := r.Intn(100); {
-	case x < 58:
+	case x < 70:
 		return "right"
-	case x < 74:
+	case x < 82:
 		return "none"
-	case x < 90:
+	case x < 93:
 		return "wrong"
 	}
 	return "range"
@@ -335,7 +339,9 @@ type supplied struct {
 }
 
 // unpackOracle decides the call from the documented contract.
-//   markers[i]: 0 = `name`, 1 = `name?`, 2 = `name??`.
+//
+//	markers[i]: 0 = `name`, 1 = `name?`, 2 = `name??`.
+//
 // It returns whether the call must succeed, whether that is ambiguous (see above), and for each
 // target the set of admissible observations.
 func unpackOracle(markers []int, npos int, sup []supplied, sentinels []string) (ok, ambiguous bool, final []string, allowed []map[string]bool, errc string) {
@@ -418,7 +424,7 @@ func classifyUnpackErr(err error) string {
 
 func (e *engine) partB() {
 	c := e.c
-	draws := c.Pick(2, 40)
+	draws := c.Pick(4, 40)
 	// all marker sequences over 0..4 parameters
 	var specs [][]int
 	for n := 0; n <= 4; n++ {
@@ -627,7 +633,7 @@ func (e *engine) unpackArgsCase(r *rand.Rand, si int, markers []int, npos, sub, 
 			e.cover("B_assigned_target_kinds", tkindNames[targets[su.param].kind])
 		}
 	}
-	if c.Shard%2 == 1 && c.WantSample() && n >= 2 && r.Intn(50) == 0 {
+	if c.Shard%2 == 1 && c.WantSample() && n >= 2 && len(sup) >= 2 && r.Intn(map[bool]int{true: 3, false: 300}[gotOK]) == 0 {
 		d := describe()
 		d["part"] = "B"
 		c.Sample(d)
